@@ -154,3 +154,102 @@ func queryWithGoal(query, negGoal, part string) (string, bool) {
 	}
 	return query[:len(query)-len(tail)] + "(assert (not " + part + "))\n(check-sat)\n", true
 }
+
+// pruneStale drops quantified hypotheses that talk about a havocked heap
+// version (a heap array symbol H:...) which the goal does not depend on, not
+// even through definitions.  Such facts describe earlier program states (an
+// outer loop head, a state before a call) and only add instantiation noise.
+// Dropping hypotheses is sound.  ok=false when nothing was dropped.
+func pruneStale(query string) (string, bool) {
+	lines := strings.Split(query, "\n")
+	gi := -1
+	for i := len(lines) - 1; i >= 0; i-- {
+		if strings.HasPrefix(lines[i], "(assert ") {
+			gi = i
+			break
+		}
+	}
+	if gi < 0 {
+		return "", false
+	}
+	defs := map[string]string{}
+	for _, l := range lines {
+		if strings.HasPrefix(l, "(define-fun ") {
+			rest := l[len("(define-fun "):]
+			name := rest
+			if rest[0] == '|' {
+				if k := strings.IndexByte(rest[1:], '|'); k >= 0 {
+					name = rest[:k+2]
+				}
+			} else if k := strings.IndexByte(rest, ' '); k >= 0 {
+				name = rest[:k]
+			}
+			defs[name] = l
+		}
+	}
+	rel := map[string]bool{}
+	var work []string
+	add := func(text string) {
+		for _, s := range symbolsIn(text) {
+			if !rel[s] {
+				rel[s] = true
+				work = append(work, s)
+			}
+		}
+	}
+	add(lines[gi])
+	// does the goal itself (through definitions) talk about specification functions?
+	for len(work) > 0 {
+		s := work[len(work)-1]
+		work = work[:len(work)-1]
+		if d, ok := defs[s]; ok {
+			add(d)
+		}
+	}
+	goalUsesPure := false
+	for s := range rel {
+		if strings.HasPrefix(s, "|pure:") || strings.HasPrefix(s, "pure:") {
+			goalUsesPure = true
+		}
+	}
+	// non-quantified hypotheses are kept, and what they mention stays relevant
+	for i, l := range lines {
+		if i != gi && strings.HasPrefix(l, "(assert ") && !strings.Contains(l, "(forall ") && !strings.Contains(l, "(exists ") {
+			add(l)
+		}
+	}
+	for len(work) > 0 {
+		s := work[len(work)-1]
+		work = work[:len(work)-1]
+		if d, ok := defs[s]; ok {
+			add(d)
+		}
+	}
+	dropped := false
+	var out []string
+	for i, l := range lines {
+		if !goalUsesPure && i != gi && strings.HasPrefix(l, "(assert ") && strings.Contains(l, "(forall ") && strings.Contains(l, "pure:") {
+			// axioms and invariants about specification functions the goal does not mention
+			dropped = true
+			continue
+		}
+		if i != gi && strings.HasPrefix(l, "(assert ") && (strings.Contains(l, "(forall ") || strings.Contains(l, "(exists ")) && strings.Contains(l, "H:") {
+			stale := false
+			for _, s := range symbolsIn(l) {
+				if (strings.HasPrefix(s, "|H:") || strings.HasPrefix(s, "H:")) && !rel[s] {
+					stale = true
+					break
+				}
+			}
+			if stale {
+				dropped = true
+				continue
+			}
+		}
+		out = append(out, l)
+	}
+	if !dropped {
+		return "", false
+	}
+	return strings.Join(out, "\n"), true
+}
